@@ -886,7 +886,7 @@ def _parse_request_range(
     [0]: http://greenbytes.de/tech/webdav/draft-ietf-httpbis-p5-range-latest.html#byte.ranges
     """
     unit, _, value = range_header.partition("=")
-    unit, value = unit.strip(), value.strip()
+    unit, value = unit.strip(" \t"), value.strip(" \t")
     if unit != "bytes":
         return None
     start_b, _, end_b = value.partition("-")
@@ -921,7 +921,7 @@ def _get_content_range(start: int | None, end: int | None, total: int) -> str:
 
 
 def _int_or_none(val: str) -> int | None:
-    val = val.strip()
+    val = val.strip(" \t")
     if val == "":
         return None
     if not val.isascii() or not val.isdigit():
